@@ -257,15 +257,167 @@ def api : Handler := fun args impl =>
   let src := "".intercalate args
   { model := runProg src, more := valueOracles impl (wantTypeOf src) }
 
-def parseH : Handler := fun args _ =>
+/-- evaluate a value source: a closed term, or an API program ending in `;!v` -/
+def valueOf (src : String) : Except String V :=
+  if (src.splitOn ";!").length > 1 then
+    let stmts := (src.splitOn ";").filter (· ≠ "")
+    let rec go (env : Env) (k : Nat) : List String → Except String V
+      | [] => .error "noobs"
+      | st :: rest =>
+        if st.startsWith "!" then
+          match env.lookup (st.drop 1).toString with
+          | some v => .ok v
+          | none => .error "novar"
+        else match runStmt env k st with
+          | .ok env' => go env' (k + 1) rest
+          | .fail _ => .error "unmodelled"
+          | .obs out => .error out
+    go [] 0 stmts
+  else match V.ofText src with
+    | some v => .ok v
+    | none => .error "unmodelled"
+
+def lenStr (k : KindOps) (v : V) : String × V :=
+  match k.lenM v with
+  | .ok (l, v') => (toString l.toNat, v')
+  | .err => ("err", v)
+  | .panic => ("panic", v)
+  | .spin => ("spin", v)
+
+/-- C13: a script of Len / MarshalBinary queries on one value -/
+def rep : Handler := fun args impl =>
+  match args with
+  | script :: rest =>
+    match valueOf ("".intercalate rest) with
+    | .error e => { model := e }
+    | .ok v0 =>
+      match kinds.lookup v0.kind with
+      | none => unmodelled
+      | some k =>
+        let step (acc : List String × V × Bool) (c : Char) : List String × V × Bool :=
+          let (outs, v, dead) := acc
+          if dead then acc else
+          if c = 'L' then
+            match k.lenM v with
+            | .ok (l, v') => (outs ++ [s!"L{l.toNat}"], v', false)
+            | _ => (outs ++ ["panic"], v, true)
+          else
+            match k.marshalM v with
+            | .ok (bs, v') => (outs ++ ["M" ++ hexOrDash bs], v', false)
+            | .err => (outs ++ ["Merr"], v, false)
+            | _ => (outs ++ ["panic"], v, true)
+        let (outs, v, dead) := script.toList.foldl step ([], v0, false)
+        let m := if dead then "panic" else ",".intercalate outs ++ " " ++ v.toText
+        -- oracle on the implementation: every L answer equal, every M answer equal, |M| = L
+        let o : List (String × String) :=
+          match (impl.splitOn " ").head? with
+          | some seq =>
+            let parts := seq.splitOn ","
+            let ls := parts.filter (·.startsWith "L")
+            let ms := parts.filter (·.startsWith "M")
+            let same (xs : List String) : Bool := match xs with | [] => true | x :: r => r.all (· == x)
+            let lenOK : Bool := match ls.head?, ms.head? with
+              | some l, some m => m == "Merr" || (l.drop 1).toString == toString (((m.drop 1).toString.length) / 2) || m == "M-" && l == "L0"
+              | _, _ => true
+            if impl = "panic" ∨ impl.startsWith "err" then []
+            else (if same ls then [] else [("C13", s!"Len answers differ: {ls}")]) ++
+                 (if same ms then [] else [("C13", s!"encodings differ between calls ({ms.length} calls)")]) ++
+                 (if lenOK then [] else [("C13", s!"size {ls.head?} vs encoding length")])
+          | none => []
+        { model := m, more := o }
+  | _ => unmodelled
+
+/-- C05 / C09: encode, decode into a fresh value of the same kind (or through Parse), encode again -/
+def rtWith (viaParse : Bool) : Handler := fun args impl =>
+  match valueOf ("".intercalate args) with
+  | .error e => { model := e }
+  | .ok v0 =>
+    match kinds.lookup v0.kind with
+    | none => unmodelled
+    | some k =>
+      match k.marshalM v0 with
+      | .ok (b1, _) =>
+        let back := b1 ++ [0xde, 0xad, 0xbe, 0xef, 0x01, 0x02, 0x03, 0x04]
+        let s : Slice := ⟨back, b1.length⟩
+        let dec : R V := if viaParse then parse (s.len + 1) s else k.unmarshal k.zero s
+        let m := match dec with
+          | .ok .nil => hexOrDash b1 ++ " | pnil"
+          | .ok q =>
+            (match kinds.lookup q.kind with
+             | none => "unmodelled"
+             | some kq =>
+               let (l2, q1) := lenStr kq q
+               match kq.marshalM q1 with
+               | .ok (b2, q2) => s!"{hexOrDash b1} | {l2} {hexOrDash b2} | {q2.toText}"
+               | .err => s!"{hexOrDash b1} | {l2} err2"
+               | _ => "panic")
+          | .err => hexOrDash b1 ++ (if viaParse then " | perr" else " | derr")
+          | .panic => "panic"
+          | .spin => "spin"
+        -- oracle: decoding succeeds, re-encoding reproduces the bytes, reported size = their number
+        let prop := if v0.kind.startsWith "p." then "C09" else "C05"
+        let o : List (String × String) :=
+          match impl.splitOn " | " with
+          | [h1, mid, _] =>
+            (match mid.splitOn " " with
+             | [l2, h2] =>
+               if h2 = h1 ∧ l2 = toString (if h1 = "-" then 0 else h1.length / 2) then []
+               else [(prop, s!"round trip of a {v0.kind}: encoded {h1.take 120}, re-encoded {h2.take 120} (size {l2})")]
+             | _ => [(prop, s!"round trip of a {v0.kind}: {mid.take 100}")])
+          | _ => if impl.startsWith "err1" then [] else [(prop, s!"round trip of a {v0.kind} fails: {impl.take 160}")]
+        { model := m, more := o }
+      | .err => { model := "err1" }
+      | .panic => { model := "panic", more := [("C05", "encoder panics")] }
+      | .spin => { model := "spin" }
+
+/-- C12: a parsed message does not change when its input buffer (whole backing array) is overwritten -/
+def scribble : Handler := fun args impl =>
   match args with
   | [hx, ln] =>
     match mkSlice hx ln with
-    | some s => { model := showR V.toText (parse (s.len + 1) s) }
+    | some s =>
+      let m := match parse (s.len + 1) s with
+        | .ok .nil => "~"
+        | .ok v =>
+          (match kinds.lookup v.kind with
+           | some k => (match k.marshalM v with
+             | .ok (bs, v') => s!"same {v'.toText} {hexOrDash bs}"
+             | .err => s!"same {v.toText} merr"
+             | _ => "panic")
+           | none => "unmodelled")
+        | .err => "err"
+        | .panic => "panic"
+        | .spin => "spin"
+      { model := m, more := if impl.startsWith "changed" then [("C12", s!"message changed after its input buffer was overwritten: {impl.take 300}")] else [] }
     | none => unmodelled
   | _ => unmodelled
 
+def parseH : Handler := fun args impl =>
+  match args with
+  | [hx, ln] =>
+    match mkSlice hx ln with
+    | some s => { model := showR V.toText (parse (s.len + 1) s),
+                  more := if impl = "panic" ∨ impl = "spin" then [("C07", s!"Parse of a {ln}-byte frame: {impl}")] else [] }
+    | none => unmodelled
+  | _ => unmodelled
+
+/-- `dec` with the totality oracle for the packet-header decoders (C08) -/
+def decH : Handler := fun args impl =>
+  let v := dec args impl
+  match args with
+  | kn :: _ :: ln :: _ =>
+    if (kn.startsWith "p." ∨ kn.startsWith "p.New") ∧ (impl = "panic" ∨ impl = "spin") then
+      { v with more := [("C08", s!"{kn} decoder on {ln} bytes: {impl}")] }
+    else v
+  | _ => v
+
 def handlers : List (String × Handler) :=
-  [("enc", enc), ("dec", dec), ("decc", decc), ("fn", fn), ("prog", prog), ("api", api), ("parse", parseH)]
+  [("enc", enc), ("dec", decH), ("decc", fun a i => let v := decc a i
+      match a with
+      | kn :: _ :: ln :: _ => if kn.startsWith "p." ∧ (i = "panic" ∨ i = "spin") then { v with more := [("C08", s!"{kn} decoder on {ln} bytes: {i}")] } else v
+      | _ => v),
+   ("fn", fn), ("prog", prog), ("api", api), ("parse", parseH),
+   ("rep", rep), ("rtrip", rtWith false), ("rtparse", rtWith true), ("scribble", scribble),
+   ("repx", fun a i => { (rep a i) with more := [] }), ("rtx", fun a i => { (rtWith false a i) with more := [] })]
 
 end OFV.Driver.OF
